@@ -138,8 +138,11 @@ def run(ctx):
     # templates x networks
     for net in NETS:
         for tkind, cls, hl in (("p2pkh", P2PKHScriptPubKey, 20), ("p2sh", P2SHScriptPubKey, 20), ("p2wpkh", P2WPKHScriptPubKey, 20), ("p2wsh", P2WSHScriptPubKey, 32), ("p2tr", P2TRScriptPubKey, 32)):
-            for rep in range(1 if q else 4):
-                h = rb(hl) if rep else (b"\x00" * 2 + rb(hl - 2))
+            zero_runs = [2, 0, 1, 3, 5, 6, 12, hl - 1, hl] if tkind in ("p2pkh", "p2sh") else [2, 0, 1, 3]      # leading zero bytes of the hash (short Base58 strings)
+            for rep in range(len(zero_runs) if (q and net in ("mainnet", "regtest")) or not q else 1):
+                h = b"\x00" * zero_runs[rep] + rb(hl - zero_runs[rep])
+                if tkind == "p2tr" and rep == 1:
+                    h = b"\xff" * 32                       # a 32-byte program that is not the x coordinate of a curve point (still a valid output script / address)
                 a = outcome(lambda: cls(h).address(net))
                 addr = a[1] if a[0] == "ok" else ""
 
